@@ -11,7 +11,7 @@ PRIMITIVE = {("plane", "sphere"), ("plane", "capsule"), ("plane", "ellipsoid"), 
              ("sphere", "cylinder"), ("sphere", "box"), ("capsule", "capsule"), ("capsule", "box")}
 
 
-def gen(n, types=("plane", "sphere", "capsule", "ellipsoid", "cylinder", "box")):
+def gen(n, types=("plane", "sphere", "capsule", "ellipsoid", "cylinder", "box", "mesh")):
   mod = "---- MODULE Gen_CollisionFamily ----\nEXTENDS CollisionFamily\nGTypes == {" + ", ".join('"%s"' % t for t in types) + "}\n====\n"
   cfg = f"CONSTANTS\n  Types <- GTypes\n  Mode = \"sim\"\n  NCase = {n}\nSPECIFICATION Spec\nINVARIANT Ordered\nINVARIANT MixSymmetric\nINVARIANT EmitCase\n"
   return {"Gen_CollisionFamily.tla": mod, "Gen_CollisionFamily.cfg": cfg}
@@ -74,6 +74,23 @@ def _chunk(args):
           cls = {"cls": "explicit_pair_margin"}
         elif (c["t1"], c["t2"]) == ("box", "box") and got and ref:
           cls = {"cls": "multiccd_count"}
+        elif (c["t1"], c["t2"]) == ("plane", "mesh") and got and ref and len(got) < len(ref):
+          # fewer contacts than MuJoCo, but every one of them is one of MuJoCo's (same point, depth and normal)
+          if all(any(abs(y["dist"] - x["dist"]) <= tol and np.abs(y["pos"] - x["pos"]).max() <= 5 * tol and np.abs(y["frame"][0] - x["frame"][0]).max() <= 2e-2 for x in ref) for y in got):
+            cls = {"cls": "plane_mesh_manifold"}
+        elif (c["t1"], c["t2"]) in (("box", "mesh"), ("mesh", "mesh")) and got and ref and len(got) < len(ref):
+          # the multi-contact routine found no face contact where MuJoCo's did: what is reported must then be MuJoCo's single-contact (multiccd off) answer
+          import copy
+
+          mjm1 = copy.copy(mjm)
+          mjm1.opt.disableflags |= int(mujoco.mjtDisableBit.mjDSBL_MULTICCD)
+          d1 = mujoco.MjData(mjm1)
+          d1.qpos[:] = mjd.qpos
+          mujoco.mj_kinematics(mjm1, d1)
+          mujoco.mj_collision(mjm1, d1)
+          ref1 = collide.contacts_of(d1)
+          if len(ref1) == len(got) and all(any(abs(y["dist"] - x["dist"]) <= tol and np.abs(y["pos"] - x["pos"]).max() <= 5 * tol and np.abs(y["frame"][0] - x["frame"][0]).max() <= 2e-2 for x in ref1) for y in got):
+            cls = {"cls": "multiccd_count_mesh"}
         out.append((dict({"what": "number of contacts differs from mj_collision", "pair": f"{c['t1']}-{c['t2']}", "pose": c["pose"]}, **cls),
                     f"world {w}: {len(got)} vs {len(ref)} contacts (signed distance {actual:.5f}, margin {case['margin'] / 1000})", where))
         break
@@ -104,7 +121,7 @@ def _chunk(args):
 
 
 def run(ctx: core.Ctx):
-  ctx.rule = ("CollisionFamily.tla: geom type pairs over {plane, sphere, capsule, ellipsoid, cylinder, box} x pose class {separated, inside margin, "
+  ctx.rule = ("CollisionFamily.tla: geom type pairs over {plane, sphere, capsule, ellipsoid, cylinder, box, convex mesh} x pose class {separated, inside margin, "
               "touching, shallow, deep} x per-geom condim / priority / friction / margin / solmix x explicit pair; TLC checks the parameter-mixing rule "
               "(symmetry) and emits cases with the expected condim / friction / margin. Each case is concretised (random orientations; the free geom "
               "is placed by bisection at the class's signed distance) and mjw.collision compared with mj_collision per contact: geoms, dim, dist, "
@@ -129,7 +146,7 @@ def run(ctx: core.Ctx):
   ctx.traces_validated = len(cases)
   ctx.extra["contacts_compared"] = ncon
   ctx.assumptions += ["primitive (closed-form) pairs: dist 2e-5, pos 1e-4, normal 1e-4; convex (GJK/EPA) pairs: dist 2e-3, pos 1e-2, normal 2e-2 - the convex solver's tolerance",
-                      "mesh, hfield and sdf geoms are not generated"]
+                      "meshes are random convex polytopes of 8..14 vertices; height fields and sdf geoms are not generated; mesh pairs with a margin under multiccd are rejected by put_model and skipped"]
 
 
 def replay(ctx, scen):
@@ -140,6 +157,6 @@ META = {
   "text": "CollisionFamily.tla spans geom type pairs x pose classes x parameter classes and states the parameter-mixing rule; TLC emits cases "
           "with the expected mixed parameters; each is concretised at a prescribed signed distance and every contact mjw.collision reports is "
           "matched with mj_collision's (geoms, dim, distance, position, normal, friction, solver parameters, margin).",
-  "note": "differential against MuJoCo C; pose-unstable reference cases skipped and counted; no mesh/hfield/sdf geoms",
+  "note": "differential against MuJoCo C; pose-unstable reference cases skipped and counted; convex meshes included, no hfield/sdf geoms",
   "technique": "TLA+ case family + parameter-mixing rule (CollisionFamily.tla) enumerated by TLC; spec->code replay with MuJoCo C as oracle",
 }
